@@ -34,12 +34,28 @@ def _frac(s):
     return Fraction(s)
 
 
+_SLOW_OPEN = 0            # per process = per task (vf/core forks one process per task)
+SLOW_OPEN_LIMIT = 3
+SLOW_OPEN_SECONDS = 8.0
+
+
 def prove(oid, hyps, goal, func=None, timeout_ms=None, canary=False, inst=None, trusted=None, kind='proof',
           replay=None, finding_key=None):
     """One SMT obligation -> result record.  `replay(model)->witness dict` turns a counter-model into a
     native run; a counterexample that does not reproduce natively demotes the verdict to undecided."""
+    global _SLOW_OPEN
     try:
-        r = smt.check(hyps, goal, timeout_ms=timeout_ms)
+        if _SLOW_OPEN >= SLOW_OPEN_LIMIT and not canary:
+            # this task has already spent its patience: several obligations took the solvers' full budgets without being proved (typically a
+            # changed function whose every entry is now wrong).  The rest get a short budget - enough for what is still provable, and the
+            # failures already recorded carry the verdict.
+            r = smt.check(hyps, goal, timeout_ms=min(timeout_ms or smt.Z3_TIMEOUT_MS, 2500), use_cli=False)
+            if r['status'] == 'undecided':
+                r['reason'] = 'short budget after %d slow undischarged obligations in this task; ' % _SLOW_OPEN + r['reason']
+        else:
+            r = smt.check(hyps, goal, timeout_ms=timeout_ms)
+        if r['status'] != 'proved' and r['seconds'] > SLOW_OPEN_SECONDS:
+            _SLOW_OPEN += 1
     except Exception:
         return R(oid, kind, 'error', detail=traceback.format_exc()[-1500:], func=func)
     if canary:
@@ -98,8 +114,19 @@ def prove_eq(oid, hyps, a, b, func=None, timeout_ms=None, replay=None, inst=None
     """hyps |- a == b over the reals.  Quick z3 attempt, then the exact ring normaliser (vf.polyring);
     a counter-model is only ever taken from the SMT solver."""
     from . import polyring
+    global _SLOW_OPEN
     a, b = to_real(a), to_real(b)
     t0 = time.time()
+    if _SLOW_OPEN >= SLOW_OPEN_LIMIT:
+        return prove(oid, hyps, a == b, func=func, timeout_ms=timeout_ms, replay=replay, inst=inst, trusted=trusted, finding_key=finding_key)
+    res = _prove_eq(oid, hyps, a, b, func, timeout_ms, replay, inst, trusted, finding_key, z3_first_ms, t0)
+    if res['verdict'] != 'proved' and time.time() - t0 > SLOW_OPEN_SECONDS and _SLOW_OPEN < SLOW_OPEN_LIMIT:
+        _SLOW_OPEN = max(_SLOW_OPEN, 0) + 1 if res.get('seconds', 0) <= SLOW_OPEN_SECONDS else _SLOW_OPEN     # (prove() has counted the long ones itself)
+    return res
+
+
+def _prove_eq(oid, hyps, a, b, func, timeout_ms, replay, inst, trusted, finding_key, z3_first_ms, t0):
+    from . import polyring
     r = smt.check(hyps, a == b, timeout_ms=z3_first_ms, use_cli=False)
     if r['status'] in ('proved', 'refuted'):
         return prove(oid, hyps, a == b, func=func, timeout_ms=z3_first_ms * 4, replay=replay, inst=inst, trusted=trusted,
